@@ -7,7 +7,8 @@
         owner_removed   {u2}                      the owner no longer belongs to the batch's billing project
         extra_members   {u1, u2, dev, inactive}   a developer and an inactive user are members
    Callers: u1 owner, u2 member, u3 outsider, dev developer, auth the auth service account, inactive an inactive
-   user, idev an inactive developer, anon no credentials.
+   user, idev an inactive developer, ci another service account (is_service_account, not a developer, member of no
+   project: it must be refused by rule 4 like any plain user), anon no credentials.
 
    A request is (route class, caller, world, target batch/project, input variant).  Route classes (the harness maps EVERY registered route
    to one of them by method and path pattern; a non-public route that fits nothing is "authed"):
@@ -34,7 +35,7 @@
    compares the real answer with the model's (Predicted).                                                       *)
 EXTENDS Naturals, Sequences, SequencesExt, FiniteSets, TLC, Json, IOUtils
 
-Callers  == {"u1", "u2", "u3", "dev", "auth", "inactive", "idev", "anon"}
+Callers  == {"u1", "u2", "u3", "dev", "auth", "ci", "inactive", "idev", "anon"}
 Worlds   == {"base", "open1", "owner_removed", "extra_members"}
 Projects == {"proj", "other"}
 
@@ -51,7 +52,8 @@ Members(w, p) == IF p = "proj"
 Authenticated(c) == c # "anon"
 Active(c)        == Authenticated(c) /\ c \notin {"inactive", "idev"}
 Developer(c)     == c \in {"dev", "idev"}
-AuthService(c)   == c = "auth"
+ServiceAccount(c) == c \in {"auth", "ci"}     \* is_service_account; "ci" stands for every service account other than auth
+AuthService(c)   == c = "auth"                \* rule 4 names the auth service, not service accounts in general
 Privileged(c)    == Developer(c) \/ AuthService(c)
 
 Classes == {"public", "authed", "create", "batch_member", "batch_owner", "bp_admin", "bp_read", "list_batches", "list_billing"}
